@@ -110,6 +110,8 @@ package dns
 //@   requires zp != nil && zp.c != nil
 //@   requires lexinv: (zp.c.l.value == 1 ==> len(zp.c.l.token) > 0) && (zp.c.cachedL != nil ==> (zp.c.cachedL.value == 1 ==> len(zp.c.cachedL.token) > 0))
 //@   loop * invariant (zp.c.l.value == 1 ==> len(zp.c.l.token) > 0) && (zp.c.cachedL != nil ==> (zp.c.cachedL.value == 1 ==> len(zp.c.cachedL.token) > 0))
+// ... and a range is refused for no other reason (a range of one value, start == end, and a start of 0 are legal)
+//@   assert at "bad range in $GENERATE range" rangeonly: end < 0 || start < 0 || end < start || (end - start) / step > 65535 [C06 C07]
 //@   assert at "r := &generateReader{" range: 0 <= start && start <= end && step > 0 && (end - start) / step <= 65535
 // the parser of the generated text works under the includer's limits: same file system, same include permission and
 // depth, and the TTL state in force (so an omitted TTL in the template takes $TTL, else the last stated TTL)
